@@ -184,3 +184,33 @@ def run(ctx):
             ctx.ob('R-SUP', 'elf/enums.py:ENUM_D_TAG', 'contains ENUM_D_TAG_COMMON', not missing, got=missing[:5])
     ctx.guard('R-SUP', 'machine tables', sup)
     ctx.floor('R-SUP', 8)
+
+
+EN, CO, DE, DC, DX = 'elf/enums.py', 'elf/constants.py', 'dwarf/enums.py', 'dwarf/constants.py', 'dwarf/dwarf_expr.py'
+MUTANTS = [
+    ('em-x86-64', EN, "    EM_X86_64        = 62,", "    EM_X86_64        = 63,", 'R-REG'),
+    ('osabi-freebsd', EN, "    ELFOSABI_FREEBSD=9,", "    ELFOSABI_FREEBSD=8,", 'R-REG'),
+    ('sht-gnu-hash', EN, "    SHT_GNU_HASH=0x6ffffff6,", "    SHT_GNU_HASH=0x6ffffff5,", 'R-REG'),
+    ('pt-gnu-relro', EN, "    PT_GNU_RELRO=0x6474e552,", "    PT_GNU_RELRO=0x6474e553,", 'R-REG'),
+    ('dt-gnu-hash', EN, "    DT_GNU_HASH=0x6ffffef5,", "    DT_GNU_HASH=0x6ffffef4,", 'R-REG'),
+    ('r-x86-64-plt32', EN, "    R_X86_64_PLT32=4,", "    R_X86_64_PLT32=5,", 'R-REG'),
+    ('stv-protected', EN, "    STV_PROTECTED=3,", "    STV_PROTECTED=4,", 'R-REG'),
+    ('sht-arm-attributes', EN, "            SHT_ARM_ATTRIBUTES=0x70000003,", "            SHT_ARM_ATTRIBUTES=0x70000005,", 'R-REG'),
+    ('arm-table-not-merged', EN, "ENUM_SH_TYPE_ARM = merge_dicts(\n        ENUM_SH_TYPE_BASE,\n        dict(", "ENUM_SH_TYPE_ARM = merge_dicts(\n        dict(", 'R-SUP'),
+    ('shn-xindex', CO, "    SHN_XINDEX=0xffff", "    SHN_XINDEX=0xfffe", 'R-REG'),
+    ('shf-compressed', CO, "    SHF_COMPRESSED=0x800", "    SHF_COMPRESSED=0x400", 'R-REG'),
+    ('tag-subprogram', DE, "    DW_TAG_subprogram                  = 0x2e,", "    DW_TAG_subprogram                  = 0x2f,", 'R-REG'),
+    ('at-call-value', DE, "    DW_AT_call_value                = 0x7e,", "    DW_AT_call_value                = 0x7f,", 'R-REG'),
+    ('form-line-strp', DE, "    DW_FORM_line_strp           = 0x1f,", "    DW_FORM_line_strp           = 0x1e,", 'R-'),
+    ('lnct-md5', DE, "    DW_LNCT_MD5              = 0x5,", "    DW_LNCT_MD5              = 0x6,", 'R-REG'),
+    ('ut-skeleton', DE, "    DW_UT_skeleton      = 0x04,", "    DW_UT_skeleton      = 0x05,", 'R-REG'),
+    ('rle-offset-pair', DE, "    DW_RLE_offset_pair   = 0x04,", "    DW_RLE_offset_pair   = 0x05,", 'R-REG'),
+    ('raw2name-not-inverse', DE, "DW_FORM_raw2name = dict((v, k) for k, v in ENUM_DW_FORM.items())", "DW_FORM_raw2name = dict((v + 1, k) for k, v in ENUM_DW_FORM.items())", 'R-INV'),
+    ('lang-rust', DC, "DW_LANG_Rust = 0x001c", "DW_LANG_Rust = 0x001d", 'R-REG'),
+    ('ate-utf', DC, "DW_ATE_UTF = 0x10", "DW_ATE_UTF = 0x11", 'R-REG'),
+    ('cfa-val-expression', DC, "DW_CFA_val_expression = 0x16", "DW_CFA_val_expression = 0x17", 'R-REG'),
+    ('cfa-offset-bits', DC, "DW_CFA_offset = 0b10000000", "DW_CFA_offset = 0b01000000", 'R-'),
+    ('op-call-frame-cfa', DX, "    DW_OP_call_frame_cfa=0x9c,", "    DW_OP_call_frame_cfa=0x9d,", 'R-REG'),
+    ('op-entry-value', DX, "    DW_OP_entry_value=0xa3,", "    DW_OP_entry_value=0xa4,", 'R-REG'),
+    ('opcode2name-filtered', DX, "DW_OP_opcode2name = {v: k for k, v in DW_OP_name2opcode.items()}", "DW_OP_opcode2name = {v: k for k, v in DW_OP_name2opcode.items() if v < 0xe0}", 'R-INV'),
+]
